@@ -122,6 +122,9 @@ def run(facts, chk, tier, only=None):
     # the iterator as a whole, functionally (every sequence of the small families, both strand modes): twin of the guard-shape rule below
     from . import skiter
     chk.guard('C16.func', 'C16.func:iterator:run', lambda: skiter.check_contigs(facts, chk, 'C16.func', tier))
+    # the positions a consumer records for the sliding windows (RefSka::new: k-mer list with middle positions, N inside the contig)
+    from . import c04
+    chk.guard('C16.func', 'C16.func:ref:run', lambda: c04.check_refska_new(facts, chk, 'C16.func', tier))
     chk.guard('C16.window', 'C16.window:run', lambda: c01.check_guards(facts, chk, 'C16.window'))
 
 
